@@ -76,7 +76,16 @@ def E5():
             "libs": [{"name": "prims", "defs": [dict(L1)]}, {"name": "work", "defs": [sub, T]}]}
 
 
-BASES = {"E1": E1, "E2": E2, "E3": E3, "E4": E4, "E5": E5}
+def E6():
+    """two libraries declare a cell with the same name; the design names the one in the earlier library."""
+    ta = {"name": "top", "ports": [port("a_in", 1, "in")], "insts": [{"name": "u", "ref": ["prims", "L1"]}],
+          "nets": [{"name": "w", "bits": [[["P", "a_in", 0], ["I", "u", "i", 0]]]}]}
+    tb = {"name": "top", "ports": [port("b_in", 1, "in")], "insts": [], "nets": []}
+    return {"name": "e6", "top": ["impl_a", "top"], "top_name": "top",
+            "libs": [{"name": "prims", "defs": [dict(L1)]}, {"name": "impl_a", "defs": [ta]}, {"name": "impl_b", "defs": [tb]}]}
+
+
+BASES = {"E1": E1, "E2": E2, "E3": E3, "E4": E4, "E5": E5, "E6": E6}
 
 
 def bus_renderings(width):
